@@ -34,6 +34,79 @@ def calls(d, acc):
         calls(c, acc)
 
 
+def strip(d):
+    while isinstance(d, dict) and d.get('kind') in ('ImplicitCastExpr', 'ParenExpr', 'ExprWithCleanups', 'MaterializeTemporaryExpr', 'CXXBindTemporaryExpr') and d.get('inner'):
+        d = d['inner'][0]
+    return d
+
+
+def members(d, acc):
+    if isinstance(d, dict):
+        n = d.get('member') or (d.get('name') if d.get('kind') == 'MemberExpr' else None)
+        if n and n.startswith('m_'):
+            acc.append(n)
+        for c in d.get('inner', []):
+            members(c, acc)
+    return acc
+
+
+def declrefs(d, acc):
+    if isinstance(d, dict):
+        if d.get('kind') == 'DeclRefExpr' and d.get('referencedDecl', {}).get('kind') == 'VarDecl':
+            acc.append(d['referencedDecl']['name'])
+        for c in d.get('inner', []):
+            declrefs(c, acc)
+    return acc
+
+
+def callee_name(call):
+    c = strip(call['inner'][0]) if call.get('inner') else {}
+    return c.get('name') or c.get('member') or c.get('referencedDecl', {}).get('name') or ('<dependent>' if c.get('kind') == 'DependentScopeDeclRefExpr' else None), c.get('kind')
+
+
+def io_sequence(fn, which):
+    """the top-level statements of a write_binary / read_binary body, classified, in order"""
+    body = [c for c in fn.get('inner', []) if c.get('kind') == 'CompoundStmt']
+    if not body:
+        return None
+    out = []
+    for st in body[0].get('inner', []):
+        s = strip(st)
+        k = s.get('kind')
+        if k in ('CallExpr', 'CXXMemberCallExpr'):
+            n, ck = callee_name(s)
+            if n in ('write_io_header', 'read_io_header'):
+                out.append('H')
+            elif n in ('write_io_footer', 'read_io_footer'):
+                out.append('F')
+            elif n == 'write' and which == 'write_binary':
+                ms = members(s, [])
+                out.append('W:' + (ms[0] if ms else '?'))
+            elif (n == 'write_binary' or n == '<dependent>') and which == 'write_binary':
+                ms = members(s, [])
+                out.append('B:' + (ms[-1] if ms else '?'))
+            else:
+                out.append(f'?:{k}:{n}')
+        elif k == 'DeclStmt' and which == 'read_binary':
+            for vd in s.get('inner', []):
+                init = strip(vd['inner'][0]) if vd.get('inner') else {}
+                if vd.get('kind') == 'VarDecl' and init.get('kind') == 'CallExpr':
+                    n, ck = callee_name(init)
+                    if ck == 'UnresolvedLookupExpr' and n == 'read_binary':
+                        out.append('R:' + vd['name'])
+                    elif ck in ('DependentScopeDeclRefExpr', 'CXXDependentScopeMemberExpr') or n == 'read_binary':
+                        out.append('B:' + vd['name'])
+                    else:
+                        out.append(f'?:decl:{n}')
+                else:
+                    out.append(f'?:decl:{vd.get("name")}')
+        elif k == 'ReturnStmt' and which == 'read_binary':
+            out.append('C:' + ','.join(declrefs(s, [])))
+        else:
+            out.append(f'?:{k}')
+    return out
+
+
 def scan(repo):
     with tempfile.TemporaryDirectory() as td:
         tu = os.path.join(td, 'tu.cpp')
@@ -42,6 +115,7 @@ def scan(repo):
                             '-Xclang', '-ast-dump-filter=covfie', tu], stdout=subprocess.PIPE, stderr=subprocess.PIPE, text=True, timeout=300)
     docs = cxx2coq.load_docs(p.stdout)
     tags, magic, footer, tagged = {}, {}, {}, {}
+    seqs = {}
     seen = set()
 
     def walk(d, outer, fn):
@@ -66,6 +140,9 @@ def scan(repo):
                 if name == 'read_binary' and 'read_io_header' in acc and 'read_io_footer' in acc:
                     r = True
                 tagged[outer] = (w, r)
+                sq = io_sequence(d, name)
+                if sq is not None:
+                    seqs.setdefault(outer, {})[name] = sq
         if k == 'VarDecl' and name == 'IO_MAGIC_HEADER' and outer:
             v = lit(d)
             if v is not None:
@@ -81,7 +158,7 @@ def scan(repo):
     for d in docs:
         walk(d, None, None)
     # the field class reads/writes its tag in its constructor / dump, not in read_binary / write_binary
-    return {'tags': tags, 'magic': magic, 'footer': footer, 'tagged': tagged}
+    return {'tags': tags, 'magic': magic, 'footer': footer, 'tagged': tagged, 'seqs': seqs}
 
 
 def main(repo, out):
@@ -100,7 +177,12 @@ def main(repo, out):
            f'Definition io_footer_reader : string * Z := ("{fr[0]}", {fr[1]}).\n'
            '(* backends whose write_binary calls write_io_header and write_io_footer / whose read_binary calls read_io_header and read_io_footer *)\n'
            'Definition io_writes_tag : list string := [' + '; '.join(f'"{k}"' for k, v in sorted(rep['tagged'].items()) if v[0]) + '].\n'
-           'Definition io_checks_tag : list string := [' + '; '.join(f'"{k}"' for k, v in sorted(rep['tagged'].items()) if v[1]) + '].\n')
+           'Definition io_checks_tag : list string := [' + '; '.join(f'"{k}"' for k, v in sorted(rep['tagged'].items()) if v[1]) + '].\n'
+           '(* the top-level statements of every write_binary / read_binary, in order: H header, F footer, W:m = fs.write of member m,\n'
+           '   B:m = the backend member m written by its own write_binary; R:x = x read by utility::read_binary<..>, B:x = x read by the\n'
+           '   backend\'s read_binary, C:x,y,.. = the variables handed to the constructor in the return statement, ?.. = anything else *)\n'
+           'Definition io_write_seq : list (string * list string) := [' + '; '.join(f'("{k}", [' + '; '.join(f'"{i}"' for i in v.get('write_binary', [])) + '])' for k, v in sorted(rep['seqs'].items())) + '].\n'
+           'Definition io_read_seq : list (string * list string) := [' + '; '.join(f'("{k}", [' + '; '.join(f'"{i}"' for i in v.get('read_binary', [])) + '])' for k, v in sorted(rep['seqs'].items())) + '].\n')
     os.makedirs(out, exist_ok=True)
     path = os.path.join(out, 'Gen_Tags.v')
     if not os.path.exists(path) or open(path).read() != txt:
